@@ -5,6 +5,7 @@
 import Fx.Index
 import Fx.Walk
 import Fx.Lemmas.ParseNorm
+import Fx.Lemmas.ParseAst
 namespace Fx.C12
 open Fx
 
@@ -423,5 +424,52 @@ theorem C12_ast_from_declarations (s : Parse.Spec) (h : s.ok = true) :
     simp only [hw]
     cases Ast.ofPairs [s.norm.root] <;> rfl
   · exact .inl (by rw [show Peg.parseWith Grammar.xdr "item" s.text = _ from hp])
+
+/-- **C12 from the text, in closed form.**  For every well-formed text, `Ast::new` is: for each declaration, in source order,
+    the node its constructor (`Typedef::new`, `Enum::new`, `Struct::new`, `Union::new`) builds from the node list the
+    *declaration itself* determines (`Decl.node`: the name, then per declarator its type — a name, or the built-in type a
+    spelling denotes whatever white space it contains —, its name, an optional marker, its array suffix with the bound as
+    written; per arm its label and body; per member its name and value), then `itemsOf` and the three indexes.  No token, no
+    text and no layout occurs on the right-hand side.  With the constructor theorems above (nothing dropped, merged or
+    invented by `Union::new`, `Struct::new`, `Enum::new`, the indexes) this is C12 end to end, for the model tied by T3. -/
+theorem C12_ast_closed_form (s : Parse.Spec) (h : s.ok = true) :
+    Ast.new (String.ofList s.text) = .outOfFuel ∨
+    Ast.new (String.ofList s.text) =
+      frontOf ((mapOut (fun dl : Parse.Decl × Parse.Layout => dl.1.node) s.decls).bind fun ns =>
+        (itemsOf (ns ++ [.eof])).bind Ast.ofItems) := by
+  unfold Ast.new
+  rw [String.toList_ofList]
+  rcases Parse.spec_parseWith s h with hp | hp
+  · refine .inr ?_
+    rw [show Peg.parseWith Grammar.xdr "item" s.text = _ from hp]
+    simp only [Ast.ofPairs, Parse.walk_root s h]
+    cases mapOut (fun dl : Parse.Decl × Parse.Layout => dl.1.node) s.decls with
+    | panicAt f m => rfl
+    | ok ns =>
+      simp only [Out.bind_ok]
+      cases (itemsOf (ns ++ [.eof])).bind Ast.ofItems <;> rfl
+  · exact .inl (by rw [show Peg.parseWith Grammar.xdr "item" s.text = _ from hp])
+
+section example_closed_form
+open Parse
+
+private def sp' : Layout := ⟨[' '], []⟩
+
+/-- `const A = 1; struct s { unsigned \tint x<A>; opaque o<>; };` -/
+def exS : Spec := ⟨nl, [
+  (.const ⟨sp', ['A'], sp', sp', ['1'], nl⟩, sp'),
+  (.struct ⟨sp', ['s'], sp', sp',
+     [(⟨.prim (.uint [' ', '\t']) [' '], nl, none, ['x'], nl, some (.var nl (some (.name ['A'], nl)), nl)⟩, sp'),
+      (⟨.prim .opaque [' '], nl, none, ['o'], nl, some (.var nl none, nl)⟩, sp')], nl⟩, nl)]⟩
+
+example : exS.ok = true := by decide
+example : String.ofList exS.text = "const A = 1; struct s { unsigned \tint x<A>; opaque o<>; };" := by decide
+
+/-- the right-hand side of `C12_ast_closed_form` on it: exactly the declared constant and struct -/
+example : ((mapOut (fun dl : Decl × Layout => dl.1.node) exS.decls).bind fun ns => (itemsOf (ns ++ [.eof])).bind Ast.ofItems) =
+    .ok { constants := [("A", .constValue "1")], generics := ["s"],
+          types := [("s", .struct ⟨"s", [⟨"x", .variable .u32 (some (.constant "A")), false⟩,
+                                           ⟨"o", .variable .opaque none, false⟩]⟩)] } := by rfl
+end example_closed_form
 
 end Fx.C12
